@@ -131,8 +131,58 @@ def check_forced_exits(run, res):
             continue
         got = sorted(alive, key=lambda k: pos_exit[k])
         want = sorted(alive, key=lambda k: -pos_enter[k])
+        if got != want and got == _f4_order(run, sid, alive):
+            res.finding("F4", "scheduler %d: doers added by extend() during a cycle sit before the doer that was "
+                        "running; entered %s, force-exited %s" % (sid, list(reversed(want)), got))
+            continue
         if got != want:
             res.violate("forced-exit-order",
                         "scheduler %d: still-alive doers entered in order %s were exited in order %s (want %s)" % (
                             sid, list(reversed(want)), got, want))
     return n
+
+
+def _f4_order(run, sid, alive):
+    """Exit order hio is known to produce when doers were added by extend() while the
+    scheduler's cycle was in progress (finding F4): the new deeds are queued in front of the
+    deed that was running at the time, so they are not the first to be force-exited later.
+    Returns the predicted exit order of `alive` under exactly that quirk."""
+    def parent_sid(nid):
+        st = run.st[nid]
+        return run.sid(st.parent) if st.parent is not None else None
+
+    def child_of_sid_above(nid):
+        # direct child of scheduler sid that is nid or an ancestor of nid
+        cur = nid
+        seen = 0
+        while cur is not None and seen < 64:
+            ps = parent_sid(cur)
+            if ps == sid:
+                return cur
+            if ps is None or ps == -1:
+                return None
+            cur = ps
+            seen += 1
+        return None
+
+    q = []
+    batch = None
+    caller = None
+    for e in run.trace:
+        if e[0] == "extend_call" and e[2] == sid:
+            batch = []
+            caller = e[1]
+        elif e[0] in ("extend_return", "extend_raise") and e[2] == sid and batch is not None:
+            r = child_of_sid_above(caller)
+            if r is not None and r in q:
+                i = q.index(r)
+                q[i:i] = batch
+            else:
+                q.extend(batch)
+            batch = None
+        elif e[0] == "enter" and e[1] != -1 and parent_sid(e[1]) == sid:
+            if batch is not None:
+                batch.append(e[1])
+            else:
+                q.append(e[1])
+    return [c for c in reversed(q) if c in alive]
